@@ -1,0 +1,7 @@
+//go:build verif
+
+package catalog
+
+func VerifTagName(title string) string { return string(tagName(title)) }
+
+func VerifPathTagTitle(path string) string { return pathTagTitle(path) }
